@@ -243,10 +243,42 @@ class Concurrent(Stream):
         return None
 
 
+class KeySweep(Stream):
+    """300 000 different keys used one after the other in one process under 128-NEA2 and 128-NIA2: every result must be what
+    AES-CTR / AES-CMAC (Go standard library, computed from that call's own key and parameters) gives — whatever keys were
+    used before (a cache of key schedules indexed by anything shorter than the key would show here)"""
+    name = "key-sweep"
+    sub = "manykeys"
+    harness_timeout = 1800
+    model_check = None
+    spec_check = None
+    requires = []
+    history_dependent = False
+
+    def generate(self, rng, tier):
+        # when a proof obligation broke (e.g. the AES functions started to keep state) the sweep is a hundred times longer
+        return [{"n": 30000000 if getattr(self, "search", False) else 300000 if tier == "quick" else 3000000, "seed": rng.below(1 << 30)}]
+
+    def classify(self, c, o):
+        return "all-equal" if o.get("first_bad") == -1 else "differs"
+
+    def key(self, c, o):
+        return "key-sweep"
+
+    def coq_case(self, c, o):
+        return ""
+
+    def direct_check(self, c, o):
+        if o.get("first_bad", 0) != -1:
+            return "after %s other keys were used in this process, %s under key %s (COUNT %s, BEARER %s, DIRECTION %s, message %s) gives %s; AES with that key gives %s" % (
+                o.get("first_bad"), o.get("what"), o.get("key"), o.get("count"), o.get("bearer"), o.get("dir"), o.get("msg"), o.get("got"), o.get("want"))
+        return None
+
+
 class C07(Check):
     pid = "C07"
     prop_files = ["Properties/C07.v"]
-    streams = [Nea(), Nia(), Nea1Raw(), Nia1Raw(), Concurrent()]
+    streams = [Nea(), Nia(), Nea1Raw(), Nia1Raw(), Concurrent(), KeySweep()]
     trusted = ["Coq 8.16.1 kernel incl. vm_compute (no native_compute)", "no axioms (Print Assumptions: closed under the global context)",
                "hand-written models Model/Snow3g.v, Model/Security.v tied to the Go code by the correspondence streams nea, nia, nea1raw, nia1raw "
                "(clean and dirtied package state); S-box tables taken from the source by the translator gen-snow3g",
@@ -258,4 +290,6 @@ class C07(Check):
                    "messages are non-empty and shorter than 2^29 octets (uint32(len)*8 does not wrap); NAS messages are < 2^16 octets"]
 
     def regen(self, harness):
-        return ["Snow3gTables.v"] if gen.run_translator(harness, "gen-snow3g", "Snow3gTables.v") else []
+        from .C20 import C20
+        ch = C20.regen(self, harness)           # Gen/Footprints.v (go/ssa): c07_aes_algorithms_keep_no_package_state
+        return ch + (["Snow3gTables.v"] if gen.run_translator(harness, "gen-snow3g", "Snow3gTables.v") else [])
